@@ -1021,8 +1021,13 @@ int vorbis_synthesis_lapout(vorbis_dsp_state *v,float ***pcm){
     v->centerW=0;
   }
 
-  /* solidify buffer into contiguous space */
-  if((v->lW^v->W)==1){
+  /* solidify buffer into contiguous space; when only one block has
+     been decoded so far there is no finished data in front of its
+     second half (pcm_returned already stands at it) and nothing is to
+     be moved */
+  if(v->pcm_returned>=n1){
+    /* contiguous as it is */
+  }else if((v->lW^v->W)==1){
     /* long/short or short/long */
     for(j=0;j<vi->channels;j++){
       float *s=v->pcm[j];
